@@ -42,6 +42,42 @@ const (
 	maxEntropy = 25
 )
 
+// the site configuration in force, as named by the last `config` op line (the oracle does not read ptttype's variables)
+type siteCfg struct {
+	haveAnon, freeTn, useEntropy, queryURL, aidURL bool
+}
+
+var defaultCfg = siteCfg{haveAnon: true, freeTn: false, useEntropy: true, queryURL: true, aidURL: false}
+var C = defaultCfg
+
+func (c siteCfg) bits() string {
+	return b2s(c.haveAnon) + b2s(c.freeTn) + b2s(c.useEntropy) + b2s(c.queryURL) + b2s(c.aidURL)
+}
+
+// aidcOf: the 8-character article id of a name M.<t>.A.<XXX> (pttbbs fn2aidu + aidu2aidc), computed here from scratch.
+func aidcOf(name string) string {
+	const alphabet = "0123456789ABCDEFGHIJKLMNOPQRSTUVWXYZabcdefghijklmnopqrstuvwxyz-_"
+	var t, p uint64
+	if _, err := fmt.Sscanf(name, "M.%d.A.%X", &t, &p); err != nil {
+		return "00000000"
+	}
+	v := (t&0xffffffff)<<12 | p&0xfff
+	out := make([]byte, 8)
+	for i := 7; i >= 0; i-- {
+		out[i] = alphabet[v&63]
+		v >>= 6
+	}
+	return string(out)
+}
+
+// urlTail: the last component of the article URL.
+func urlTail(name string) string {
+	if C.aidURL {
+		return aidcOf(name)
+	}
+	return name + ".html"
+}
+
 // a cursor-movement sequence: ESC, parameter bytes, a final from the movement list.
 var reMove = regexp.MustCompile("\x1b[0-9;,\\[]*[ABCDfjHJRu]")
 
@@ -69,7 +105,7 @@ func expTitle(q *request) []byte {
 	if len(q.class) > 0 {
 		full = append(append(append([]byte{'['}, q.class...), ']', ' '), q.title...)
 	}
-	if !q.has('r') && bytes.HasPrefix(full, sTag) {
+	if !q.has('r') && !C.freeTn && bytes.HasPrefix(full, sTag) {
 		full = full[len(sTag):]
 	}
 	return full
@@ -89,8 +125,8 @@ func expBody(q *request) (body []byte, entropy int) {
 		body = append(body, p...)
 		body = append(body, '\n')
 	}
-	if entropy > maxEntropy {
-		entropy = maxEntropy
+	if entropy > maxEntropy || !C.useEntropy {
+		entropy = maxEntropy // without the entropy measure every post is worth the maximum
 	}
 	return body, entropy
 }
@@ -139,7 +175,7 @@ func judgePost(i int, q0 *request, o *observed, name string) string {
 	tag := "notag"
 	if bytes.HasPrefix(full, sTag) {
 		tag = "tag-kept"
-		if !q.has('r') {
+		if !q.has('r') && !C.freeTn {
 			tag = "tag-stripped"
 		}
 	}
@@ -158,6 +194,9 @@ func judgePost(i int, q0 *request, o *observed, name string) string {
 		cls = "cls"
 	}
 	label := fmt.Sprintf("post:%s:%s:%s:%s:%s", role, q.dirBoard, cls, tag, fit)
+	if C != defaultCfg {
+		label += ":cfg=" + C.bits()
+	}
 	fail := func(key, what string) {
 		if q.dirBoard != q.board {
 			return // judged as a whole below
@@ -186,7 +225,7 @@ func judgePost(i int, q0 *request, o *observed, name string) string {
 	// --- crashes and refusals
 	if o.out == "PANIC" || o.out == "TIMEOUT" {
 		key := "crash:CreateArticle"
-		if len(full) < len(sTag) && !q.has('r') {
+		if len(full) < len(sTag) && !q.has('r') && !C.freeTn {
 			key = "crash:short-title"
 		}
 		fail(key, fmt.Sprintf("%s: %s; afterwards: %s", o.out, hx.LastPanic, orStr(unchanged(), "nothing changed on disk")))
@@ -226,7 +265,9 @@ func judgePost(i int, q0 *request, o *observed, name string) string {
 		fail("index:earlier-bytes", "bytes of earlier index records changed")
 	}
 	rec := o.dirAfter[nb*recSz:]
-	anon := q.has('a')
+	// ONE fact: the site offers anonymous boards and the board is flagged; owner, mode, counter, header and
+	// signature are all judged against it
+	anon := q.has('a') && C.haveAnon
 	if !reName.MatchString(name) {
 		fail("name:format", fmt.Sprintf("file name %q", name))
 		return label
@@ -330,8 +371,10 @@ func judgePost(i int, q0 *request, o *observed, name string) string {
 		}
 	}
 	header := join(sAuthor, " ", author, " (", nick, ") ", sBoard, " ", q.board, "\n", sTitle, " ", title, "\n", sTime, " ", ct, "\n\n")
-	sig := join("\n--\n", sStation, " ", sBBSName, "(", sHost, "), ", sFrom, " ", host, "\n",
-		sURL, " ", sURLPrefix, "/", q.board, "/", name, ".html\n")
+	sig := join("\n--\n", sStation, " ", sBBSName, "(", sHost, "), ", sFrom, " ", host, "\n")
+	if C.queryURL {
+		sig = join(sig, sURL, " ", sURLPrefix, "/", q.board, "/", urlTail(name), "\n")
+	}
 	want := join(header, body, sig)
 	if !bytes.Equal(file, want) {
 		switch {
@@ -412,7 +455,7 @@ func judgeFail(i int, q *request, o *observed, lim int) string {
 		// the request reported success: then the stored file must be complete after all
 		rec := lastRec(o.dirAfter, recSz)
 		name := string(cutNul(rec[:min(len(rec), 28)]))
-		if f := o.filesA[name]; !bytes.HasSuffix(f, []byte(name+".html\n")) {
+		if f := o.filesA[name]; !bytes.HasSuffix(f, []byte(urlTail(name)+"\n")) {
 			run.Fail(i, "fail:incomplete-file", what+"reported success, but the stored file is truncated")
 		}
 		return "postfail:succeeded"
